@@ -11,6 +11,11 @@ def run(ctx):
                  "written afterwards land after the committed ones", floor=4)
     ctx.delegate("C09", ["C09.W5"], "C11.commit",
                  "everything written before the last completed finalize is readable: every successful write re-arms finalize", floor=1)
+    ctx.delegate("C07", ["C07.arith", "C07.panics"], "C11.torn",
+                 "a file cut anywhere (a mixed old/new length included) is read without a panic: the arithmetic on the position "
+                 "counter and on lengths from the file cannot overflow", floor=20)
+    ctx.delegate("C03", ["C03.stop"], "C11.stop",
+                 "without an index the reader stops exactly at the declared length and after a failed read", floor=2)
     ctx.delegate("C13", ["C13.short", "C13.errs"], "C11.reader",
                  "a reader opened on a torn file reports the cut record as an error: no partial read is taken for a full one, "
                  "no read error is swallowed", floor=100)
